@@ -99,11 +99,30 @@ def ensure_shim():
 
 # --------------------------------------------------------------------------- vdrive client
 
+_aslr_ok = None
+
+
+def can_disable_aslr():
+    """Pointer-keyed maps (HashMap<Class, _>) hash addresses; replay determinism therefore needs
+    address-space randomisation switched off for the child (setarch -R)."""
+    global _aslr_ok
+    if _aslr_ok is None:
+        try:
+            _aslr_ok = subprocess.run(["setarch", "-R", "true"], stdout=subprocess.DEVNULL,
+                                      stderr=subprocess.DEVNULL).returncode == 0
+        except OSError:
+            _aslr_ok = False
+    return _aslr_ok
+
+
 class VDrive:
     """One `vdrive serve` subprocess, strictly request/response, so that a crash or a hang is
     attributed to exactly one job."""
 
-    def __init__(self, extra_types=(VTYPES,), stack_mb=None, job_timeout=60.0):
+    def __init__(self, extra_types=(VTYPES,), stack_mb=None, job_timeout=60.0, env=None,
+                 no_aslr=False):
+        self.extra_env = env or {}
+        self.no_aslr = no_aslr and can_disable_aslr()
         self.extra_types = [t for t in extra_types if t and os.path.exists(t)]
         self.stack_mb = stack_mb
         self.job_timeout = job_timeout
@@ -112,11 +131,14 @@ class VDrive:
 
     def _start(self):
         cmd = [VDRIVE_BIN, "serve", "--metatypes", METATYPES]
+        if self.no_aslr:
+            cmd = ["setarch", "-R"] + cmd
         for t in self.extra_types:
             cmd += ["--types", t]
         env = dict(os.environ)
         if self.stack_mb:
             env["VDRIVE_STACK_MB"] = str(self.stack_mb)
+        env.update(self.extra_env)
         self.p = subprocess.Popen(cmd, stdin=subprocess.PIPE, stdout=subprocess.PIPE,
                                   stderr=subprocess.DEVNULL, env=env, bufsize=0)
         self._buf = b""
